@@ -496,6 +496,15 @@ def discharge(obls, timeout_ms=10000, use_cvc5=False, refute=True):
             pruned = [h for h in o.hyps if not _mentions(h, _LOGSYMS)]
             if len(pruned) == len(o.hyps):
                 pruned = None
+        if pruned is None and not _mentions(g, ("SUMA",)):
+            # the goal talks about exponential images but not about sums:
+            # try without the sum facts (definitional axioms with lambdas
+            # are expensive for the quantifier engine)
+            nosum = [h for h in o.hyps if not _mentions(h, ("SUMA",))]
+            if len(nosum) != len(o.hyps):
+                r, s = _solve(nosum, g, min(2000, timeout_ms), mbqi=False)
+                if r != z3.unsat:
+                    r = None
         if pruned is not None:
             # a short attempt on the full query first: when the pruned
             # facts are needed the pruned query only times out
